@@ -1526,6 +1526,24 @@ func c09Groups(s *c09Schema, cs *c09Case) (read, written []c09Out, info c09Group
 			}
 			c09ProbeIndexes(s, groups, &info)
 			info.refine = true
+			// A concatenation (MultiRowGroup) with an empty member has a page of zero rows in its
+			// concatenated index: Go cannot bound such an input from its first / last page and
+			// merges it whole; the model bounds an input by its keys.  Plans of these cases are
+			// not compared (the property predicate is evaluated as for every case).
+			if cs.Tree != nil {
+				for _, cols := range info.layouts {
+					for _, pages := range cols {
+						if len(pages) > 1 {
+							for _, n := range pages {
+								if n == 0 {
+									info.refine = false
+									c09Stats.emptyPageInputs++
+								}
+							}
+						}
+					}
+				}
+			}
 		}
 	}); msg != "" {
 		fail = "panic: " + msg
@@ -1886,6 +1904,7 @@ var c09Stats struct {
 	bufferCuts, bufferOnePage, bufferInputs int
 	indexOdd                                string
 	top, opaqueTop                          int // inputs of the root merge of the nested cases, those whose rows are computed
+	emptyPageInputs                         int // nested cases left out of the plan comparison: an input with a zero-row page
 }
 
 // c09RefineCase records the coverage of one plan comparison.
@@ -3182,6 +3201,7 @@ func runC09(c *core.Ctx) {
 	}
 	c.Note("large file-backed cases in which refinement sliced at least one row-range view: %d of %d", fired, nBig)
 	c.Note("refined plans compared with the model (corr:C09.refine): %d, of which %d contain a row-range part; not compared because of the size limit (%d rows per input, %d in total): %d", c09Stats.compared, c09Stats.sliced, c09RefineMaxInput, c09RefineMaxTotal, c09Stats.tooBig)
+	c.Note("nested cases whose plan was not compared because a concatenated input has a zero-row page (an empty member of a MultiRowGroup; Go merges such an input whole, the model bounds it by its keys): %d", c09Stats.emptyPageInputs)
 	c.Note("what the planner sees of the inputs: MergeRowGroups wraps every input with ConvertRowGroup, which returns the row group itself when the schemas are equal (EqualNodes) and otherwise keeps the source column chunk (same position) or forwards ColumnIndex()/OffsetIndex() to it (convertedColumnChunk); the harness probes the wrapped row groups: %d inputs were wrapped in this run. A parquet.Buffer's column chunk returns a one-page column index (min/max of all values, NullPage only when every value is null) and a one-page offset index, so newCutLookups returns lookups for it (cutAbove/cutBelow are 0 or NumRows): non-empty Buffer inputs %d, with lookups %d, with a one-page layout %d", c09Stats.converted, c09Stats.bufferInputs, c09Stats.bufferCuts, c09Stats.bufferOnePage)
 	if len(bigFailed) > 0 {
 		var fs []string
